@@ -29,9 +29,19 @@ pub trait Leaf {
     fn name(&self) -> String;
 }
 
-#[savefile_abi_exportable(version = 0)]
+/// a type whose second field only exists from data version 1 on
+#[derive(Savefile, Debug, Clone, PartialEq)]
+pub struct Reading {
+    pub value: u32,
+    #[savefile_versions = "1.."]
+    pub unit: String,
+}
+
+#[savefile_abi_exportable(version = 1)]
 pub trait Svc {
     fn add(&self, a: u32, b: u32) -> u32;
+    fn deref(&self, x: &u32) -> u32;
+    fn map_reading(&self, f: &dyn Fn(Reading) -> Reading, r: Reading) -> Reading;
     fn echo_string(&self, s: String) -> String;
     fn echo_vec(&self, v: Vec<u8>) -> Vec<u8>;
     fn join(&self, s: String, tag: u32) -> (String, u32);
@@ -97,6 +107,19 @@ impl Svc for SvcImpl {
         fault_point("add");
         log(format!("impl.add {} {}", a, b));
         a.wrapping_add(b)
+    }
+    fn deref(&self, x: &u32) -> u32 {
+        fault_point("deref");
+        log(format!("impl.deref {}", x));
+        x.wrapping_mul(2)
+    }
+    fn map_reading(&self, f: &dyn Fn(Reading) -> Reading, r: Reading) -> Reading {
+        fault_point("map_reading");
+        log(format!("impl.map_reading {:?}", r));
+        let out = f(r);
+        fault_point("map_reading.ret");
+        log(format!("impl.map_reading got {:?}", out));
+        Reading { value: out.value.wrapping_add(1), unit: format!("<{}>", out.unit) }
     }
     fn echo_string(&self, s: String) -> String {
         fault_point("echo_string");
@@ -310,6 +333,133 @@ impl Drop for LeafFut {
     fn drop(&mut self) {
         // the future owns the waker it registered: it goes away with the future
         crate::world::forget_wakers_of(&[self.guard.id()]);
+    }
+}
+
+/// A second, implementation-side definition of the same interface: identical method signatures, but declared in
+/// reverse order behind an extra method (so every callee method number differs and must be found by name), at
+/// a newer version, and with a by-reference argument type whose memory layout differs from the caller's
+/// (`Packed3Alt` has a field the caller's version does not know, placed first). Connecting the caller's
+/// `dyn Svc` to this entry point must still behave exactly like calling the implementation directly.
+pub mod alt {
+    use super::*;
+    #[derive(Savefile, Debug, Clone, PartialEq)]
+    #[repr(C)]
+    pub struct Packed3Alt {
+        #[savefile_versions = "2.."]
+        pub d: u64,
+        pub a: u64,
+        pub b: u64,
+        pub c: u64,
+    }
+    #[savefile_abi_exportable(version = 2)]
+    pub trait Svc {
+        fn extra_first(&self) -> u32;
+        fn many(&self, a0: u8, a1: u8, a2: u8, a3: u8, a4: u8, a5: u8, a6: u8, a7: u8, a8: u8, a9: u8, a10: u8, a11: u8, a12: u8, a13: u8, a14: u8, a15: u8, a16: u8, a17: u8, a18: u8, a19: u8, a20: u8, a21: u8, a22: u8, a23: u8, a24: u8, a25: u8, a26: u8, a27: u8, a28: u8, a29: u8, a30: u8, a31: u8, a32: u8, a33: u8, a34: u8, a35: u8, a36: u8, a37: u8, a38: u8, a39: u8, a40: u8, a41: u8, a42: u8, a43: u8, a44: u8, a45: u8, a46: u8, a47: u8, a48: u8, a49: u8, a50: u8, a51: u8, a52: u8, a53: u8, a54: u8, a55: u8, a56: u8, a57: u8, a58: u8, a59: u8, a60: u8, a61: u8, a62: u8, a63: u8) -> u32;
+        fn fut(&self, ev: u32, stages: u32) -> Pin<Box<dyn Future<Output = u32>>>;
+        fn make_fn(&self, k: u32) -> Box<dyn Fn(u32) -> u32>;
+        fn make_leaf(&self, tag: u32) -> Box<dyn Leaf>;
+        fn drop_leaves(&mut self) -> u32;
+        fn ping_leaves(&self, x: u32) -> u32;
+        fn take_leaf(&mut self, l: Box<dyn Leaf>, x: u32) -> u32;
+        fn drop_stored(&mut self) -> u32;
+        fn call_stored(&self, x: u32) -> u32;
+        fn take_boxed_fn(&mut self, f: Box<dyn Fn(u32) -> u32 + Send + Sync>) -> u32;
+        fn call_fnmut(&self, f: &mut dyn FnMut(u32) -> u32, n: u32) -> u32;
+        fn call_fn(&self, f: &dyn Fn(u32) -> u32, x: u32) -> u32;
+        fn bump(&mut self, by: u32) -> u32;
+        fn try_div(&self, a: u32, b: u32) -> Result<u32, String>;
+        fn sum_slice(&self, s: &[u32]) -> u64;
+        fn count_str(&self, s: &str) -> usize;
+        fn len_ref(&self, r: &Rec) -> usize;
+        fn sum_ref(&self, p: &Packed3Alt) -> u64;
+        fn concat(&self, a: String, b: String) -> String;
+        fn join(&self, s: String, tag: u32) -> (String, u32);
+        fn echo_vec(&self, v: Vec<u8>) -> Vec<u8>;
+        fn echo_string(&self, s: String) -> String;
+        fn map_reading(&self, f: &dyn Fn(Reading) -> Reading, r: Reading) -> Reading;
+        fn deref(&self, x: &u32) -> u32;
+        fn add(&self, a: u32, b: u32) -> u32;
+    }
+    impl Svc for SvcImpl {
+        fn extra_first(&self) -> u32 {
+            0
+        }
+        fn many(&self, a0: u8, a1: u8, a2: u8, a3: u8, a4: u8, a5: u8, a6: u8, a7: u8, a8: u8, a9: u8, a10: u8, a11: u8, a12: u8, a13: u8, a14: u8, a15: u8, a16: u8, a17: u8, a18: u8, a19: u8, a20: u8, a21: u8, a22: u8, a23: u8, a24: u8, a25: u8, a26: u8, a27: u8, a28: u8, a29: u8, a30: u8, a31: u8, a32: u8, a33: u8, a34: u8, a35: u8, a36: u8, a37: u8, a38: u8, a39: u8, a40: u8, a41: u8, a42: u8, a43: u8, a44: u8, a45: u8, a46: u8, a47: u8, a48: u8, a49: u8, a50: u8, a51: u8, a52: u8, a53: u8, a54: u8, a55: u8, a56: u8, a57: u8, a58: u8, a59: u8, a60: u8, a61: u8, a62: u8, a63: u8) -> u32 {
+            <SvcImpl as super::Svc>::many(self, a0, a1, a2, a3, a4, a5, a6, a7, a8, a9, a10, a11, a12, a13, a14, a15, a16, a17, a18, a19, a20, a21, a22, a23, a24, a25, a26, a27, a28, a29, a30, a31, a32, a33, a34, a35, a36, a37, a38, a39, a40, a41, a42, a43, a44, a45, a46, a47, a48, a49, a50, a51, a52, a53, a54, a55, a56, a57, a58, a59, a60, a61, a62, a63)
+        }
+        fn fut(&self, ev: u32, stages: u32) -> Pin<Box<dyn Future<Output = u32>>> {
+            <SvcImpl as super::Svc>::fut(self, ev, stages)
+        }
+        fn make_fn(&self, k: u32) -> Box<dyn Fn(u32) -> u32> {
+            <SvcImpl as super::Svc>::make_fn(self, k)
+        }
+        fn make_leaf(&self, tag: u32) -> Box<dyn Leaf> {
+            <SvcImpl as super::Svc>::make_leaf(self, tag)
+        }
+        fn drop_leaves(&mut self) -> u32 {
+            <SvcImpl as super::Svc>::drop_leaves(self)
+        }
+        fn ping_leaves(&self, x: u32) -> u32 {
+            <SvcImpl as super::Svc>::ping_leaves(self, x)
+        }
+        fn take_leaf(&mut self, l: Box<dyn Leaf>, x: u32) -> u32 {
+            <SvcImpl as super::Svc>::take_leaf(self, l, x)
+        }
+        fn drop_stored(&mut self) -> u32 {
+            <SvcImpl as super::Svc>::drop_stored(self)
+        }
+        fn call_stored(&self, x: u32) -> u32 {
+            <SvcImpl as super::Svc>::call_stored(self, x)
+        }
+        fn take_boxed_fn(&mut self, f: Box<dyn Fn(u32) -> u32 + Send + Sync>) -> u32 {
+            <SvcImpl as super::Svc>::take_boxed_fn(self, f)
+        }
+        fn call_fnmut(&self, f: &mut dyn FnMut(u32) -> u32, n: u32) -> u32 {
+            <SvcImpl as super::Svc>::call_fnmut(self, f, n)
+        }
+        fn call_fn(&self, f: &dyn Fn(u32) -> u32, x: u32) -> u32 {
+            <SvcImpl as super::Svc>::call_fn(self, f, x)
+        }
+        fn bump(&mut self, by: u32) -> u32 {
+            <SvcImpl as super::Svc>::bump(self, by)
+        }
+        fn try_div(&self, a: u32, b: u32) -> Result<u32, String> {
+            <SvcImpl as super::Svc>::try_div(self, a, b)
+        }
+        fn sum_slice(&self, s: &[u32]) -> u64 {
+            <SvcImpl as super::Svc>::sum_slice(self, s)
+        }
+        fn count_str(&self, s: &str) -> usize {
+            <SvcImpl as super::Svc>::count_str(self, s)
+        }
+        fn len_ref(&self, r: &Rec) -> usize {
+            <SvcImpl as super::Svc>::len_ref(self, r)
+        }
+        fn sum_ref(&self, p: &Packed3Alt) -> u64 {
+            <SvcImpl as super::Svc>::sum_ref(self, &Packed3 { a: p.a, b: p.b, c: p.c })
+        }
+        fn concat(&self, a: String, b: String) -> String {
+            <SvcImpl as super::Svc>::concat(self, a, b)
+        }
+        fn join(&self, s: String, tag: u32) -> (String, u32) {
+            <SvcImpl as super::Svc>::join(self, s, tag)
+        }
+        fn echo_vec(&self, v: Vec<u8>) -> Vec<u8> {
+            <SvcImpl as super::Svc>::echo_vec(self, v)
+        }
+        fn echo_string(&self, s: String) -> String {
+            <SvcImpl as super::Svc>::echo_string(self, s)
+        }
+        fn map_reading(&self, f: &dyn Fn(Reading) -> Reading, r: Reading) -> Reading {
+            <SvcImpl as super::Svc>::map_reading(self, f, r)
+        }
+        fn deref(&self, x: &u32) -> u32 {
+            <SvcImpl as super::Svc>::deref(self, x)
+        }
+        fn add(&self, a: u32, b: u32) -> u32 {
+            <SvcImpl as super::Svc>::add(self, a, b)
+        }
     }
 }
 
